@@ -944,6 +944,10 @@ func checkIPv4(data string) bool {
 		if len(f) == 0 {
 			return false
 		}
+		if f[0] < '0' || '9' < f[0] {
+			// std.Atoi10 accepts a sign, an octet must not have one
+			return false
+		}
 		number := std.Atoi10(f)
 		if number < 0 || 255 < number {
 			panic("not a byte")
